@@ -391,8 +391,14 @@ func (v *Verifier) verifyFunc(key string, timeout int, tier string) *FuncReport 
 			x.anyVals[av.Name] = val
 		}
 		env = x.envFor(s, nil)
+		for _, av := range con.Any {
+			ls := leavesOf(x.anyVals[av.Name].T)
+			if len(ls) == 1 {
+				s.trigger(ls[0].Sort, x.anyVals[av.Name].S)
+			}
+		}
 		for _, c := range con.Requires {
-			s.assume(env.evalBool(c.Expr))
+			env.assumeClause(c)
 		}
 		x.mods = &ModSet{}
 		for _, c := range con.Modifies {
